@@ -391,6 +391,13 @@ theorem step_keep (s s' : St) (e : Ev) (ha : AllRec s) (hs : step s e = some s')
       · simp at hs; subst hs; exact StepKeep.frame rfl rfl rfl rfl (CallsOK.of_eq rfl)
       all_goals cases hs
     · cases hs
+  | envErr a e0 =>
+    simp only [step, stepI] at hs
+    split at hs
+    · split at hs
+      · simp at hs; subst hs; exact StepKeep.frame rfl rfl rfl rfl (CallsOK.of_eq rfl)
+      all_goals cases hs
+    · cases hs
   | giveUp n =>
     simp only [step, stepI] at hs
     split at hs
@@ -646,6 +653,7 @@ theorem hl_step (s s' : St) (e : Ev) (ms : C14haSt) (msA : C04St) (hl : HLink s 
     · cases hs
   | envDo c => exact hl_generic s s' _ ms hl ha hs rfl
   | envCancelW a => exact ⟨ms, rfl, hl_generic s s' _ ms hl ha hs rfl⟩
+  | envErr a e0 => exact ⟨ms, rfl, hl_generic s s' _ ms hl ha hs rfl⟩
   | giveUp n => exact hl_generic s s' _ ms hl ha hs rfl
   | drained n => exact hl_generic s s' _ ms hl ha hs rfl
   | cbin k n f arg root =>
